@@ -111,6 +111,10 @@ func PrepareFarmParams(p sim.Params, o FarmOpts) sim.Params {
 	case 2:
 		p.Frankenstein = 0
 	}
+	if o.Fork != 0 {
+		// the staking options the fork block would have forced (the farm script is written for them)
+		p.MinSelfDeleg, p.TopCount = 500000, 64
+	}
 	return p
 }
 
